@@ -144,6 +144,16 @@ Theorem c12_cancel_removes_entry : forall w c k,
              forall h, client_entry h k' = false.
 Proof. exact cancel_no_entry. Qed.
 
+(* An abandoned connect resets the peer (fix 48e101e): dropping the pending future (Cancel,
+   an elapsed timeout) removes the client entry (above) and sends a RST towards the destination
+   (`send_abandon_rst`); wherever that RST is delivered, the accepting host no longer has an entry
+   for the connection, so a stream accepted for a connector that gave up does not stay established. *)
+Theorem c12_abandon_resets_acceptor : forall w d c k,
+  get_conn w c = Some k ->
+  exists k', get_conn (fst (deliver_msg w d {| m_cid := c; m_body := WSeg S.A S.PRst |})) c = Some k' /\
+             forall h, server_entry h k' = false.
+Proof. exact abandon_rst_resets_acceptor. Qed.
+
 (* Non-vacuity.  Three connectors on two hosts; the SYNs of connectors 0 and 1 are
    delivered in the opposite order; connector 1 (first to arrive) gives up; the listener
    accepts connector 0 (skipping 1), then connector 2 from its own host through 127.0.0.1;
@@ -194,4 +204,5 @@ Print Assumptions c12_refused_listener_dropped.
 Print Assumptions c12_refused_removes_entry.
 Print Assumptions c12_no_residue.
 Print Assumptions c12_cancel_removes_entry.
+Print Assumptions c12_abandon_resets_acceptor.
 Print Assumptions c12_nonvacuous.
